@@ -26,6 +26,7 @@ import (
 	"github.com/pion/sdp/v3"
 	"github.com/pion/srtp/v3"
 	"github.com/pion/webrtc/v4/internal/util"
+	"github.com/pion/webrtc/v4/internal/verifhook"
 	"github.com/pion/webrtc/v4/pkg/rtcerr"
 )
 
@@ -540,7 +541,9 @@ func (pc *PeerConnection) OnConnectionStateChange(f func(PeerConnectionState)) {
 }
 
 func (pc *PeerConnection) onConnectionStateChange(cs PeerConnectionState) {
+	endBracket := verifhook.Bracket("pc.connectionState", pc, func() int64 { return int64(pc.ConnectionState()) })
 	pc.connectionState.Store(cs)
+	endBracket()
 	pc.log.Infof("peer connection state changed: %s", cs)
 	if handler, ok := pc.onConnectionStateChangeHandler.Load().(func(PeerConnectionState)); ok && handler != nil {
 		go handler(cs)
@@ -869,6 +872,7 @@ func (pc *PeerConnection) updateConnectionState(
 		connectionState = PeerConnectionStateConnected
 	}
 
+	verifhook.Point("pc.updateConnectionState.computed")
 	if pc.connectionState.Load() == connectionState {
 		return
 	}
